@@ -290,10 +290,8 @@ Fixpoint mp_size (m : mp) : nat :=
   | _ => 1%nat
   end.
 
-Fixpoint mp_unmarshal_at (norm : str -> str) (jp : str -> option jv) (fuel : nat) (m : mp) (t : ty) : res value :=
-  match fuel with
-  | O => OutOfFuel
-  | S f =>
+(* one level of the decoder; [rec] decodes the members (the decoder with one unit of fuel less) *)
+Definition mp_unmarshal_step (norm : str -> str) (jp : str -> option jv) (rec : mp -> ty -> res value) (m : mp) (t : ty) : res value :=
     match m with
     | MUnk n items => unknown_of_mp norm n items t
     | MExt | MBad => Err OtherError
@@ -308,7 +306,7 @@ Fixpoint mp_unmarshal_at (norm : str -> str) (jp : str -> option jv) (fuel : nat
               | None => Err OtherError
               | Some tj =>
                 match type_of_json norm tj with
-                | Ok t' => mp_unmarshal_at norm jp f body (strip_opt t')   (* fix: commit bdce01e *)
+                | Ok t' => rec body (strip_opt t')   (* fix: commit bdce01e *)
                 | Err _ => Err OtherError
                 | r => match r with Panic => Panic | _ => OutOfFuel end
                 end
@@ -327,7 +325,7 @@ Fixpoint mp_unmarshal_at (norm : str -> str) (jp : str -> option jv) (fuel : nat
               match m with
               | MArr l =>
                   do vs <- (fix go (l : list mp) : res (list value) :=
-                              match l with [] => Ok [] | x :: l' => do v <- mp_unmarshal_at norm jp f x e; do r <- go l'; Ok (v :: r) end) l;
+                              match l with [] => Ok [] | x :: l' => do v <- rec x e; do r <- go l'; Ok (v :: r) end) l;
                   match vs with [] => Ok (V (TList e) (PSeq [])) | _ => if can_coll vs then list_val vs else Err OtherError end
               | _ => Err OtherError
               end
@@ -335,7 +333,7 @@ Fixpoint mp_unmarshal_at (norm : str -> str) (jp : str -> option jv) (fuel : nat
               match m with
               | MArr l =>
                   do vs <- (fix go (l : list mp) : res (list value) :=
-                              match l with [] => Ok [] | x :: l' => do v <- mp_unmarshal_at norm jp f x e; do r <- go l'; Ok (v :: r) end) l;
+                              match l with [] => Ok [] | x :: l' => do v <- rec x e; do r <- go l'; Ok (v :: r) end) l;
                   match vs with [] => Ok (V (TSet e) (PSet [])) | _ => if can_coll (map (fun v => fst (unmark_deep v)) vs) then set_val vs else Err OtherError end
               | _ => Err OtherError
               end
@@ -346,7 +344,7 @@ Fixpoint mp_unmarshal_at (norm : str -> str) (jp : str -> option jv) (fuel : nat
                                match l with
                                | [] => Ok []
                                | kv :: l' => match dec_string (fst kv) with
-                                             | Some k => do v <- mp_unmarshal_at norm jp f (snd kv) e; do r <- go l'; Ok ((k, v) :: r)
+                                             | Some k => do v <- rec (snd kv) e; do r <- go l'; Ok ((k, v) :: r)
                                              | None => Err OtherError
                                              end
                                end) l;
@@ -359,7 +357,7 @@ Fixpoint mp_unmarshal_at (norm : str -> str) (jp : str -> option jv) (fuel : nat
                   if negb (Nat.eqb (length l) (length es)) then Err OtherError else
                   do vs <- (fix go (ts : list ty) (l : list mp) : res (list value) :=
                               match l, ts with
-                              | x :: l', te :: ts' => do v <- mp_unmarshal_at norm jp f x te; do r <- go ts' l'; Ok (v :: r)
+                              | x :: l', te :: ts' => do v <- rec x te; do r <- go ts' l'; Ok (v :: r)
                               | _, _ => Ok []
                               end) es l;
                   Ok (tuple_val vs)
@@ -376,7 +374,7 @@ Fixpoint mp_unmarshal_at (norm : str -> str) (jp : str -> option jv) (fuel : nat
                                    match dec_string (fst kv) with
                                    | Some k => match lookup k attrs with
                                                | None => Err OtherError
-                                               | Some ta => do v <- mp_unmarshal_at norm jp f (snd kv) ta; do r <- go l'; Ok ((k, v) :: r)
+                                               | Some ta => do v <- rec (snd kv) ta; do r <- go l'; Ok ((k, v) :: r)
                                                end
                                    | None => Err OtherError
                                    end
@@ -390,7 +388,11 @@ Fixpoint mp_unmarshal_at (norm : str -> str) (jp : str -> option jv) (fuel : nat
           end
         end
       end
-    end
+    end.
+Fixpoint mp_unmarshal_at (norm : str -> str) (jp : str -> option jv) (fuel : nat) : mp -> ty -> res value :=
+  match fuel with
+  | O => fun _ _ => OutOfFuel
+  | S f => mp_unmarshal_step norm jp (mp_unmarshal_at norm jp f)
   end.
 Definition mp_unmarshal (norm : str -> str) (jp : str -> option jv) (m : mp) (t : ty) : res value :=
   mp_unmarshal_at norm jp (S (mp_size m)) m t.
